@@ -5,7 +5,7 @@ use std::num::NonZeroU16;
 use vstd::std_specs::cmp::OrdSpec;
 verus! {
 //@include shims/bytes.rs
-//@include shims/std_gaps.rs
+//@include shims/std_wide.rs
 
 pub mod noq_proto {
     use vstd::prelude::*;
